@@ -27,6 +27,8 @@ type Line struct {
 	Exp json.RawMessage   `json:"exp"`
 	Dev []json.RawMessage `json:"dev"`
 	Bug string            `json:"bug"`
+	// Run: the text is to be RUN on a runtime: "ok" (must complete), "throw" (must throw, never panic), "skip" (only: no Go panic)
+	Run string `json:"run,omitempty"`
 	// Pos: where an error must be reported (family utf8 of spec/C04.tla), by the line/column rule of the specification
 	Pos *struct {
 		Line int `json:"line"`
